@@ -494,6 +494,45 @@ def reopen (db : Db) (parse : Key → Int) : Db :=
   { db with tracker := match readAsciiLong db lastVersionIdKey with | some v => parse v | none => -1 }
 
 
+/-! ### notification trimming (`server/kv/notifications_trimmer.go`) -/
+
+/-- the stored notification batches, ascending by key -/
+def notifBatches (db : Db) : List NotifBatch :=
+  (SKV.range (notificationKey 0) (notificationKey 9223372036854775807) db.store).filterMap fun p =>
+    match p.2 with | .notif b => some b | _ => none
+
+def batchAt (db : Db) (o : Int) : Option NotifBatch :=
+  match SKV.get? (notificationKey o) db.store with
+  | some (.notif b) => some b
+  | _ => none
+
+/-- `notificationsTrimmer.binarySearch`; `none` = a batch in the middle is missing (the trimmer reports an
+    error and changes nothing) -/
+def trimSearch (db : Db) (cutoff : Int) : Nat → Int → Int → Option Int
+  | 0, lo, _ => some lo
+  | fuel + 1, lo, hi =>
+    if lo < hi then
+      let med := (lo + hi) / 2 + (if (lo + hi) % 2 > 0 then 1 else 0)
+      match batchAt db med with
+      | none => none
+      | some b => if cutoff < (b.timestamp : Int) then trimSearch db cutoff fuel lo (med - 1)
+                  else trimSearch db cutoff fuel med hi
+    else some lo
+
+/-- `trimNotifications` with the clock as input; `upperIsTrimPlusOne` is the fact that the deleted
+    key range ends at `notificationKey(trimOffset+1)` -/
+def trimNotifications (upperIsTrimPlusOne : Bool) (db : Db) (now retention : Int) : Db :=
+  match (notifBatches db).head?, (notifBatches db).getLast? with
+  | some f, some l =>
+    let cutoff := now - retention
+    if cutoff < (f.timestamp : Int) then db
+    else match trimSearch db cutoff (l.offset - f.offset + 1).toNat f.offset l.offset with
+      | none => db
+      | some t =>
+        let hi := if upperIsTrimPlusOne then notificationKey (t + 1) else notificationKey 9223372036854775807
+        { db with store := db.store.filter fun p => !inBatchRange (notificationKey f.offset) hi p.1 }
+  | _, _ => db
+
 /-! ### secondary-index reads (`server/secondary_indexes.go`) -/
 
 /-- the regular expression `^__oxia/idx/[^/]+/([^\x01]+)\x01(.+)$`: `(secondaryKey, escapedPrimaryKey)` -/
